@@ -412,9 +412,16 @@ func (p *parent) runJob(j job) []job {
 	// race reports
 	if j.suite.Build == "race" {
 		files, _ := filepath.Glob(filepath.Join(dir, "race.*"))
+		p.mu.Lock()
+		p.observed["race_detector_worker_processes"]++
+		p.observed["race_detector_reports"] += 0
+		p.mu.Unlock()
 		for _, f := range files {
 			b, _ := os.ReadFile(f)
 			for _, blk := range splitRaceBlocks(string(b)) {
+				p.mu.Lock()
+				p.observed["race_detector_reports"]++
+				p.mu.Unlock()
 				v := Violation{Property: p.chk.ID, Suite: j.suite.Name, Idx: j.from, Seed: p.seed, Tier: p.tier,
 					Class: "race", Sig: raceSig(blk), Detail: blk, Case: rawJSON(map[string]int{"from": j.from, "to": j.to})}
 				p.mu.Lock()
